@@ -339,7 +339,7 @@ def gen_ids(rng, n, p_have=0.4, lo=1, hi=60, special=None):
 
 def gen_world_model(rng, structured=None, use_cache="rand", nfiles=None, sizes=None, p_have=0.4, id_hi=60,
                     lock="rand", shapes=None, max_stmts=4, min_missing=1, special_ids=None, crlf_p=0.0, unicode_p=0.0,
-                    decoy_p=0.25, custom_macros_p=0.15, layout_p=0.1, heads_p=0.12, many=None, extra_keys_p=0.3):
+                    decoy_p=0.25, custom_macros_p=0.15, layout_p=0.1, heads_p=0.12, many=None, extra_keys_p=0.3, modes_p=0.15):
     """A project with generated in-scope source files under proj/src (nested sometimes)."""
     macros = None
     if rng.random() < custom_macros_p:
@@ -417,6 +417,10 @@ def gen_world_model(rng, structured=None, use_cache="rand", nfiles=None, sizes=N
             segs.insert(len(segs) - 1, g.stmt(structured, None, shapes))
             segs.insert(len(segs) - 1, ["pad", "}\n"])
     wm = {"cfg": cfg, "files": files, "extra": {}, "lock": None, "nmark": g.n}
+    if modes_p:
+        # read-only, private or executable source files (Breadlog replaces files, so it does not keep the mode: an
+        # observation outside the properties; the classifiers compare bytes only)
+        wm["modes"] = {p: rng.choice([0o444, 0o400, 0o600, 0o755, 0o664]) for p in sorted(files) if rng.random() < modes_p}
     if cfg_uses_lock(cfg):
         if lock == "rand":
             lock = rng.choice(["absent", "ahead", "ahead"])
